@@ -551,6 +551,28 @@ func (w *World) NewMemberWith(id hotstuff.ID, extra ...core.RuntimeOption) *Memb
 	return m
 }
 
+// NewMemberIncremental builds a member whose configuration is filled one replica at a time, with a quorum query and a
+// (failing) certificate check between the registrations - a replica that starts handling traffic before it has connected
+// to everybody. Once all replicas are registered it must judge certificates like any other member.
+func (w *World) NewMemberIncremental(id hotstuff.ID) *Member {
+	m := w.newMember(id, w.Keys[id])
+	// it obtains the blocks the others hold through block requests
+	m.Sender.Fetch = func(h hotstuff.Hash) (*hotstuff.Block, bool) {
+		for _, o := range w.Members {
+			if b, ok := o.Chain.LocalGet(h); ok {
+				return b, true
+			}
+		}
+		return nil, false
+	}
+	for _, o := range w.Members {
+		_ = m.Cfg.QuorumSize()
+		_ = m.Auth.VerifyQuorumCert(hotstuff.NewQuorumCert(nil, 1, hotstuff.GetGenesis().Hash()))
+		m.Cfg.AddReplica(&hotstuff.ReplicaInfo{ID: o.ID, PubKey: w.Keys[o.ID].Public(), Metadata: o.Cfg.ConnectionMetadata()})
+	}
+	return m
+}
+
 // Connect makes every member know every member's public key (and BLS proof of possession).
 func (w *World) Connect() {
 	for _, m := range w.Members {
